@@ -30,6 +30,7 @@ import (
 	"github.com/NethermindEth/juno/core/felt"
 	"github.com/NethermindEth/juno/core/pending"
 	"github.com/NethermindEth/juno/db"
+	p2psync "github.com/NethermindEth/juno/p2p/sync"
 	junosync "github.com/NethermindEth/juno/sync"
 	"github.com/NethermindEth/juno/utils/log"
 )
@@ -315,6 +316,7 @@ type epoch struct {
 	timers   []types.Timeout
 
 	noDumps    bool
+	noSentinel bool   // feed does not wait for the select loop (the sentinel would replace `actions`)
 	failAt     int    // fault injection: the effect with this index fails (flush error / commit refused); -1 = none
 	failedAt   int    // number of effects performed when the injected fault hit (-1: not yet)
 	closedSnap string // image after a regular stop (Run returned, store closed)
@@ -329,6 +331,7 @@ type epoch struct {
 	unflushedVisible []string // oracle: visible effect while records pending
 	errs             []string
 	timeoutCh        chan types.Timeout
+	syncCh           chan p2psync.BlockBody
 	sentinel         *starknet.Prevote
 	sentinelCh       chan struct{}
 	propCh           chan *starknet.Proposal
@@ -613,6 +616,18 @@ func timeoutChan(d any) chan types.Timeout {
 	return nil
 }
 
+// syncChan finds the channel on which the block fetcher reports to the driver's select loop.
+func syncChan(d any) chan p2psync.BlockBody {
+	v := reflect.ValueOf(d).Elem()
+	want := reflect.TypeOf((chan p2psync.BlockBody)(nil))
+	for i := 0; i < v.NumField(); i++ {
+		if v.Field(i).Type() == want {
+			return *(*chan p2psync.BlockBody)(unsafe.Pointer(v.Field(i).UnsafeAddr()))
+		}
+	}
+	return nil
+}
+
 const stepDeadline = 20 * time.Second
 
 var errNoTimeoutChannel = fmt.Errorf("the driver's timeout channel was not found (reflect lookup by type): timeouts cannot be injected")
@@ -656,6 +671,7 @@ func startEpoch(cfg *Cfg, base, image string, chain, epochNo uint64, failAt int)
 			return 24 * time.Hour
 		})
 	ep.timeoutCh = timeoutChan(&d)
+	ep.syncCh = syncChan(&d)
 	ctx, cancel := context.WithCancel(context.Background())
 	ep.cancel = cancel
 	if ep.inner != nil {
@@ -738,6 +754,21 @@ func (ep *epoch) feed(idx int, in Input) error {
 			sent = true
 		case <-dl:
 		}
+	case "syncerr":
+		// the block fetcher reports a failed fetch (driver.listen, sync branch with p.Err != nil)
+		if ep.syncCh == nil {
+			return fmt.Errorf("the driver's sync channel was not found")
+		}
+		// the channel is buffered (1): when the second send returns the first report has been
+		// taken by the select loop
+		for k := 0; k < 2; k++ {
+			select {
+			case ep.syncCh <- p2psync.BlockBody{Err: fmt.Errorf("injected: block fetch failed")}:
+				sent = true
+			case <-dl:
+				sent = false
+			}
+		}
 	case "t":
 		if ep.timeoutCh == nil {
 			return errNoTimeoutChannel
@@ -752,6 +783,9 @@ func (ep *epoch) feed(idx int, in Input) error {
 	}
 	if !sent {
 		return fmt.Errorf("driver does not take input %s", in)
+	}
+	if ep.noSentinel {
+		return nil
 	}
 	return ep.sync()
 }
